@@ -605,7 +605,8 @@ pub fn rust_int_bounds(lb: Option<i128>, ub: Option<i128>, ext: bool) -> (i128, 
         return (0, u64::MAX as i128);
     }
     if ext {
-        return if lb.unwrap_or(0) >= 0 && ub.unwrap_or(0) >= 0 { (0, u64::MAX as i128) } else { (i64::MIN as i128, i64max) };
+        // (an extensible range without lower bound is signed: fix 4d8d31d)
+        return if lb.is_some() && lb.unwrap_or(0) >= 0 && ub.unwrap_or(0) >= 0 { (0, u64::MAX as i128) } else { (i64::MIN as i128, i64max) };
     }
     let min = lb.unwrap_or(0);
     let max = ub.unwrap_or(i64max);
